@@ -96,18 +96,6 @@ func (r *Reader) validate() error {
 		}
 	}
 
-	// Check for at least one slide
-	hasSlide := false
-	for name := range fileMap {
-		if strings.HasPrefix(name, "ppt/slides/slide") && strings.HasSuffix(name, ".xml") {
-			hasSlide = true
-			break
-		}
-	}
-	if !hasSlide {
-		return fmt.Errorf("no slides found in presentation")
-	}
-
 	return nil
 }
 
@@ -166,6 +154,15 @@ func (r *Reader) parseSlides() error {
 		return extractSlideNumber(slideFiles[i]) < extractSlideNumber(slideFiles[j])
 	})
 
+	// The presentation's slide list decides order and membership; file-name order is
+	// only the fallback for packages without a usable sldIdLst / relationships part.
+	if declared := r.declaredSlideFiles(); len(declared) > 0 {
+		slideFiles = declared
+	}
+	if len(slideFiles) == 0 {
+		return fmt.Errorf("no slides found in presentation")
+	}
+
 	r.slides = make([]*Slide, 0, len(slideFiles))
 
 	for i, slidePath := range slideFiles {
@@ -188,6 +185,32 @@ func (r *Reader) parseSlides() error {
 	}
 
 	return nil
+}
+
+// declaredSlideFiles returns the slide parts in presentation order: the sldIdLst entries
+// resolved through ppt/_rels/presentation.xml.rels (targets are relative to ppt/ unless
+// they start with "/"). It returns nil when either part is missing.
+func (r *Reader) declaredSlideFiles() []string {
+	if r.presentation == nil || r.presentation.SlideIdList == nil || r.presRels == nil {
+		return nil
+	}
+	targets := make(map[string]string, len(r.presRels.Relationship))
+	for _, rel := range r.presRels.Relationship {
+		targets[rel.ID] = rel.Target
+	}
+	var files []string
+	for _, id := range r.presentation.SlideIdList.SlideId {
+		target, ok := targets[id.RID]
+		if !ok {
+			continue
+		}
+		if strings.HasPrefix(target, "/") {
+			files = append(files, strings.TrimPrefix(target, "/"))
+		} else {
+			files = append(files, path.Join("ppt", target))
+		}
+	}
+	return files
 }
 
 // extractSlideNumber extracts the slide number from a path like "ppt/slides/slide1.xml"
